@@ -8,6 +8,8 @@ CONSTANTS
   BatchDisabled = FALSE
   FixNotif = FALSE
   FixNonRequest = TRUE
+  FixLongWs = FALSE
+  FarChoices = {FALSE}
 INIT Init
 NEXT Next
 VIEW view
